@@ -194,6 +194,8 @@ impl ServerState {
                         // A retrigger signal only concerns a compilation that is already running.
                         // One that was raised before this compilation started is stale and must not
                         // cancel it, otherwise the newest request would be dropped.
+                        #[cfg(fuellabs_sway_verif)]
+                        crate::verif::point("W:start_clear_retrigger");
                         retrigger_compilation.store(false, Ordering::SeqCst);
                         let uri = &ctx.uri;
                         let path = uri.to_file_path().unwrap();
